@@ -122,6 +122,8 @@ def mutate(o, what):
         o.range(0).append(1)            # through the list the accessor hands out
     elif what == 'text':
         o.text['VERIFKEY'] = o.text.get('VERIFKEY', 0) + 1
+    elif what == 'analysis':
+        o.analysis['VERIFKEY'] = o.analysis.get('VERIFKEY', 0) + 1
     else:
         o[0, 0] = o[0, 0] + 1
 
@@ -159,7 +161,7 @@ def project(objs, base00):
         rec = {'buf': num(bufgroup(o)), 'ro': num(('l', id(o._range))), 'ri': num(('l', id(o._range[0]))),
                'tx': num(('l', id(o._text))), 'an': num(('l', id(o._analysis)))}
         rec['seen'] = {'buf': int(round(float(o[0, 0]) - base00)), 'rng': len(o._range[0]) - 2,
-                       'text': int(o._text.get('VERIFKEY', 0))}
+                       'text': int(o._text.get('VERIFKEY', 0)), 'an': int(o._analysis.get('VERIFKEY', 0))}
         out.append(rec)
     return out
 
@@ -181,6 +183,6 @@ def project_spec(state):
     for o in state['objs']:
         rec = {'buf': num(('c', o['buf'])), 'ro': num(('c', o['ro'])), 'ri': num(('c', o['ri'])), 'tx': num(('c', o['tx'])),
                'an': num(('c', o['an']))}
-        rec['seen'] = {'buf': tok(o['buf']), 'rng': tok(o['ri']), 'text': tok(o['tx'])}
+        rec['seen'] = {'buf': tok(o['buf']), 'rng': tok(o['ri']), 'text': tok(o['tx']), 'an': tok(o['an'])}
         out.append(rec)
     return out
